@@ -63,7 +63,21 @@ static std::string run_S(const std::vector<u64> &a, const std::vector<u64> &b) {
     String<C>       sa = mk_string<C>(a), sb = mk_string<C>(b);
     vf::ExactBuf<C> ba(a), bb(b);
     StringView<C>   va((const C *)ba.p, (SizeT)ba.n), vb((const C *)bb.p, (SizeT)bb.n);
-    std::string     r = six(sa, sb) + "/" + six(va, vb) + "/";
+    // Storage identity is not part of the contract: when one string is a prefix of the other (or they
+    // are equal) the two views are cut from ONE buffer (same start address, different or equal lengths),
+    // as a tokenizer would produce them.
+    {
+        const std::vector<u64> &shorter = (a.size() <= b.size()) ? a : b;
+        const std::vector<u64> &longer  = (a.size() <= b.size()) ? b : a;
+        bool                    is_prefix = true;
+        for (size_t i = 0; i < shorter.size(); i++) is_prefix = is_prefix && (shorter[i] == longer[i]);
+        if (is_prefix) {
+            const C *base = (a.size() <= b.size()) ? (const C *)bb.p : (const C *)ba.p;
+            va            = StringView<C>(base, (SizeT)a.size());
+            vb            = StringView<C>(base, (SizeT)b.size());
+        }
+    }
+    std::string     r = ((a == b) ? six(sa, sa) : six(sa, sb)) + "/" + six(va, vb) + "/";
     bool            has_nul = false;
     for (auto x : b) has_nul = has_nul || (x == 0);
     if (has_nul) return r + "-";
